@@ -25,7 +25,7 @@ func init() {
 		Explanation: "Decides structural necessary conditions only. D1 index-space consistency: the key of a range over a re-sliced slice S[k:], k ≠ 0, is never used bare as an index into S nor passed as a committee index. D2 no map iteration order reaches a transaction witness: nothing is written into (an alias of) an InvocationScript inside a range over a map. " +
 			"D3 single deployer: every tryDeploy/tryTransfer flag is computed as 'local committee index == 0' (or '== loop index' for the per-member Alphabet contracts), every deploying/funding submission is dominated by the true side of its flag, the committee is sorted before the local index is computed, the NNS stage dominates the Notary stage and every contract synchronisation. " +
 			"D4 restartability: package deploy imports nothing that can persist process-external progress (decisions can only come from the chain). D5 codec layout: encoder and decoder of the shared transaction data agree on (field, offset, width, byte order) and on the total length; both checksum helpers hash the same bytes and use the same prefix length. " +
-			"D6 names: the domain names used by the deployment equal rpc/nns names and the names the contracts resolve; the TLD constant is equal in common, rpc/nns and deploy. D7 cache invalidation: a closure that invalidates the shared transaction (stores nil into it) also clears every captured collection whose entries were validated against that transaction. D8 Transaction.Nonce/ValidUntilBlock depend on a chain height only through h/c or h − h%c (SSA taint). D9 stated constant: the typed constant a call is made with agrees with the one its error wrap names (positive control embedded).",
+			"D6 names: the domain names used by the deployment equal rpc/nns names and the names the contracts resolve; the TLD constant is equal in common, rpc/nns and deploy. D7 cache invalidation: a closure that invalidates the shared transaction (stores nil into it) also clears every captured collection whose entries were validated against that transaction. D8 Transaction.Nonce/ValidUntilBlock depend on a chain height only through h/c or h − h%c (SSA taint). D9 stated constant: the typed constant a call is made with agrees with the one its error wrap names (positive control embedded). D10 a local that starts at a negative sentinel and is branched on is assigned somewhere (frozen-sentinel, positive control embedded).",
 		NotCovered: "termination and convergence under all schedules and crash points, the n-member end-to-end run, divideFundsEvenly and the nonce/validity-window helper as functions of run-time integers: these need execution or model checking and are declared not applicable to this family (the property's suggested verif hook is therefore not used). Observed, not armed: distributeNEOToAlphabetContracts submits without an isPending guard; the leader tick guards the designation send with registerDomainTxMonitor and never resets triedDesignateRoleTx.",
 		Run:        runC13,
 	})
@@ -53,6 +53,22 @@ func f(committee []int, m map[int][]byte, tx *T) {
 	for i := range committee[1:] {
 		_ = committee[i+1]
 	}
+}
+func h(xs []int) int {
+	a := -1
+	b := -1
+	for i := range xs {
+		switch xs[i] {
+		case 1:
+			a = i
+		case 2:
+			a = i
+		}
+	}
+	if a < 0 && b < 0 {
+		return 0
+	}
+	return a + b
 }
 type Role int
 const (
@@ -297,6 +313,8 @@ func runC13(cx *CheckCtx) {
 	} else {
 		c1, c2 := ruleIndexSpace(ctl), ruleMapOrderWitness(ctl)
 		cx.decide(len(c1) == 2, "positive-control", "index-space", "the rule fires on the embedded example of the defect (2 uses) and not on the corrected loop", fmt.Sprintf("the index-space rule matched %d sites of its embedded positive example, expected 2: the rule is broken", len(c1)), "")
+		n4, c4 := ruleFrozenSentinel(ctl)
+		cx.decide(n4 == 2 && len(c4) == 1, "positive-control", "frozen-sentinel", "the rule sees both embedded sentinels and fires on the one that is never assigned", fmt.Sprintf("the frozen-sentinel rule matched %d variables / %d findings on its embedded example, expected 2 / 1: the rule is broken", n4, len(c4)), "")
 		n3, c3 := ruleStatedConstant(ctl)
 		cx.decide(n3 == 2 && len(c3) == 1, "positive-control", "stated-constant", "the rule sees both embedded sites and fires on the contradictory one only", fmt.Sprintf("the stated-constant rule matched %d sites / %d findings on its embedded example, expected 2 / 1: the rule is broken", n3, len(c3)), "")
 		cx.decide(len(c2) == 1, "positive-control", "map-order-witness", "the rule fires on the embedded example (and not on the order-insensitive sum)", fmt.Sprintf("the map-order rule matched %d sites of its embedded positive example, expected 1: the rule is broken", len(c2)), "")
@@ -358,6 +376,15 @@ func runC13(cx *CheckCtx) {
 	checkStageOrder(cx, sp)
 	checkCacheInvalidation(cx, sp)
 	checkTxWindow(cx, sp)
+	// D10 a local initialised to a constant sentinel, never assigned again, but branched on
+	nSent, fsent := ruleFrozenSentinel(p)
+	cx.count("sentinel_variables", nSent)
+	for _, f := range fsent {
+		cx.violated("frozen-sentinel", "deploy."+f.fn, f.what, w.pos(f.pos))
+	}
+	if len(fsent) == 0 {
+		cx.holds("frozen-sentinel", "deploy", fmt.Sprintf("%d locals start at a negative sentinel and are branched on: each is assigned somewhere", nSent))
+	}
 	// D9 stated belief: the typed constant a call is made with is the one its error wrap names
 	n, fsb := ruleStatedConstant(p)
 	cx.count("stated_constant_sites", n) // no floor: an error text need not name its constant; the positive control keeps the rule alive
@@ -1347,4 +1374,126 @@ func paramIndexOf(fn *ssa.Function, v ssa.Value) int {
 		}
 	}
 	return -1
+}
+
+// ruleFrozenSentinel: a local variable declared with a negative integer constant
+// ("not found") that is compared or switched on later but never assigned again
+// can only ever hold the sentinel: the branch on it is decided at compile time.
+// Either the variable is dead or — the copy-paste case — the assignment meant
+// for it went to a sibling variable. Returns the number of sentinel locals that
+// are branched on, and the frozen ones.
+func ruleFrozenSentinel(p *astPkg) (int, []finding) {
+	encl := enclosingFuncs(p.files)
+	type info struct {
+		decl     *ast.Ident
+		assigned bool
+		branched bool
+		node     ast.Node
+	}
+	vars := map[types.Object]*info{}
+	var out []finding
+	for _, f := range p.files {
+		// declarations
+		ast.Inspect(f, func(n ast.Node) bool {
+			as, ok := n.(*ast.AssignStmt)
+			if !ok || as.Tok != token.DEFINE || len(as.Lhs) != len(as.Rhs) {
+				return true
+			}
+			for i, l := range as.Lhs {
+				id, ok := l.(*ast.Ident)
+				if !ok {
+					continue
+				}
+				tv, ok := p.info.Types[as.Rhs[i]]
+				if !ok || tv.Value == nil || tv.Value.Kind() != constant.Int || constant.Sign(tv.Value) >= 0 {
+					continue
+				}
+				if o := p.info.Defs[id]; o != nil {
+					vars[o] = &info{decl: id}
+				}
+			}
+			return true
+		})
+		// assignments and branches
+		var stack []ast.Node
+		ast.Inspect(f, func(n ast.Node) bool {
+			if n == nil {
+				stack = stack[:len(stack)-1]
+				return true
+			}
+			stack = append(stack, n)
+			switch x := n.(type) {
+			case *ast.AssignStmt:
+				if x.Tok != token.DEFINE {
+					for _, l := range x.Lhs {
+						if id, ok := l.(*ast.Ident); ok {
+							if v := vars[p.info.Uses[id]]; v != nil {
+								v.assigned = true
+							}
+						}
+					}
+				}
+			case *ast.IncDecStmt:
+				if id, ok := x.X.(*ast.Ident); ok {
+					if v := vars[p.info.Uses[id]]; v != nil {
+						v.assigned = true
+					}
+				}
+			case *ast.UnaryExpr:
+				if x.Op == token.AND {
+					if id, ok := x.X.(*ast.Ident); ok {
+						if v := vars[p.info.Uses[id]]; v != nil {
+							v.assigned = true
+						}
+					}
+				}
+			case *ast.RangeStmt:
+				for _, e := range []ast.Expr{x.Key, x.Value} {
+					if id, ok := e.(*ast.Ident); ok && x.Tok == token.ASSIGN {
+						if v := vars[p.info.Uses[id]]; v != nil {
+							v.assigned = true
+						}
+					}
+				}
+			case *ast.Ident:
+				v := vars[p.info.Uses[x]]
+				if v == nil || len(stack) < 2 {
+					break
+				}
+				switch par := stack[len(stack)-2].(type) {
+				case *ast.BinaryExpr:
+					switch par.Op {
+					case token.LSS, token.GTR, token.LEQ, token.GEQ, token.EQL, token.NEQ:
+						v.branched = true
+						v.node = stack[0]
+					}
+				case *ast.CaseClause:
+					v.branched = true
+				case *ast.SwitchStmt:
+					if par.Tag == ast.Expr(x) {
+						v.branched = true
+					}
+				}
+			}
+			return true
+		})
+	}
+	n := 0
+	for o, v := range vars {
+		if !v.branched {
+			continue
+		}
+		n++
+		if !v.assigned {
+			fn := ""
+			for nd, name := range encl {
+				if nd.Pos() <= v.decl.Pos() && v.decl.Pos() < nd.End() {
+					fn = name
+				}
+			}
+			out = append(out, finding{v.decl.Pos(), fn, fmt.Sprintf("local %s starts at a negative sentinel, is never assigned again and is branched on: it can only ever be the sentinel (the assignment meant for it goes to another variable, or the branch is dead)", o.Name())})
+		}
+	}
+	sort.Slice(out, func(i, j int) bool { return out[i].pos < out[j].pos })
+	return n, out
 }
